@@ -1,7 +1,7 @@
 ----------------------------- MODULE MC_DposLib -----------------------------
 EXTENDS DposLib
 
-NoBlocks == <<>>
+NoBlocks == {<<>>}
 NoByz    == {}
 Byz3     == {3}
 Byz2     == {2}
@@ -31,8 +31,12 @@ MkBlocks(scr, acc) ==
   ELSE LET e  == scr[Len(acc) + 1]
            no == No(acc, e[2]) + 1
            cf == IF Len(e) = 3 THEN e[3] ELSE no - PrevOwnNo(acc, Len(acc), e[1])
-       IN MkBlocks(scr, Append(acc, [parent |-> e[2], no |-> no, bp |-> e[1], conf |-> cf]))
+       IN MkBlocks(scr, Append(acc, [parent |-> e[2], no |-> no, bp |-> e[1], conf |-> cf, bad |-> "ok"]))
 Tree(scr) == MkBlocks(scr, <<>>)
+\* the same tree with block k failing (kind "exec" = inside execute(), "pre" = before execution)
+MarkBad(T, k, kind) == [T EXCEPT ![k].bad = kind]
+OnlyOk == {"ok"}
+OkExec == {"ok", "exec"}
 
 \* ---------------------------------------------------------------- the scripted trees
 \* T3: 3 honest producers, one fork (producer 0 misses a3 and builds b3 on a2; the others follow b): LIB advances on b
@@ -67,6 +71,22 @@ T4e == Tree(<< <<0,0>>, <<1,1>>, <<2,2>>, <<0,3>>, <<1,4>>,
 \* and the next calcLIB result was assigned unconditionally (UNCOND).
 T3w == Tree(<< <<0,0>>, <<1,1>>, <<2,2>>, <<0,3>>, <<1,4>>, <<2,5>>, <<0,6>>, <<1,7>>, <<2,8>>, <<0,9>>, <<1,10>>, <<2,11>>,
                <<0,11>>, <<1,13>>, <<2,14>> >>)
+
+\* T4i: 4 producers, 3 Byzantine.  Main chain m1..m5 by 0,1,2 (blocks 1..5), continued by m6..m9 (blocks 9..12); the
+\* Byzantine producer builds s4,s5,s6 (blocks 6,7,8) on m3: longer than m1..m5.  One of s4/s5/s6 does not execute, so a
+\* reorganisation to that branch is given up half-way (or, delivered in order after m6.., never starts).  Depending on the
+\* delivery order the failing block sits below, at or above the height of the old best block.
+T4i == Tree(<< <<0,0>>, <<1,1>>, <<2,2>>, <<0,3>>, <<1,4>>,
+               <<3,3>>, <<3,6>>, <<3,7>>,
+               <<2,5>>, <<0,9>>, <<1,10>>, <<2,11>> >>)
+T4iExec == {MarkBad(T4i, 6, "exec"), MarkBad(T4i, 7, "exec"), MarkBad(T4i, 8, "exec")}
+T4iPre  == {MarkBad(T4i, 6, "pre"), MarkBad(T4i, 7, "pre"), MarkBad(T4i, 8, "pre")}
+ST3  == {T3}
+ST4  == {T4}
+ST4s == {T4s}
+ST4e == {T4e}
+ST3w == {T3w}
+ST4b == {T4b}
 
 \* ACTION_CONSTRAINT printing every transition (generation configs only)
 GenLog == LogTransition(view, lastAct', view')
